@@ -52,6 +52,22 @@ class _Return(Exception):
         self.value = value
 
 
+class NeedBit(Exception):
+    """evaluation cannot go on without knowing bit `index` of the unknown value: the caller splits on it"""
+
+    def __init__(self, index):
+        self.index = index
+
+
+def _first_unknown(*vecs):
+    for v in vecs:
+        if isinstance(v, SymVec):
+            for b in v.bits:
+                if isinstance(b, tuple):
+                    return b[1]
+    return None
+
+
 class SymVec:
     """an integer whose bits are not known: bit i is 0, 1 or the symbol ("v", i).  Bitwise operations with known integers
     and shifts by known amounts are exact; anything that would make control flow or arithmetic depend on an unknown bit is
@@ -278,7 +294,7 @@ class Interp:
             if c is None:
                 if any(b == 1 for b in v.bits):
                     return True
-                raise AnalysisError("minieval: a branch depends on the unknown value")
+                raise NeedBit(_first_unknown(v))
             return bool(c)
         return bool(v)
 
@@ -298,6 +314,8 @@ class Interp:
                 return r.concrete() if r.concrete() is not None else r
             if isinstance(op, (ast.RShift, ast.LShift)) and isinstance(a, SymVec):
                 k = b.concrete() if isinstance(b, SymVec) else b
+                if k is None and isinstance(b, SymVec):
+                    raise NeedBit(_first_unknown(b))
                 if not isinstance(k, int) or isinstance(k, bool) or k < 0:
                     raise AnalysisError(f"minieval: shift amount of `{norm(node)}` depends on the unknown value")
                 if isinstance(op, ast.RShift):
@@ -465,7 +483,7 @@ class Interp:
                     l_, r_ = (x.concrete() if isinstance(x, SymVec) else x for x in (left, right))
                     if not all(isinstance(x, int) for x in (l_, r_)):
                         if l_ is None or r_ is None:
-                            raise AnalysisError(f"minieval: comparison `{norm(e)}` depends on the unknown value")
+                            raise NeedBit(_first_unknown(left, right))
                         raise Raised("TypeError", e)
                     ok = {ast.Lt: l_ < r_, ast.LtE: l_ <= r_, ast.Gt: l_ > r_, ast.GtE: l_ >= r_}[type(op)]
                 else:
@@ -528,6 +546,9 @@ class Interp:
                 return False   # they differ in a known bit
             if A.bits == B.bits and A.concrete() is not None:
                 return True
+            for x, y in zip(A.bits, B.bits):
+                if x != y and (isinstance(x, tuple) or isinstance(y, tuple)):
+                    raise NeedBit((x if isinstance(x, tuple) else y)[1])
             raise AnalysisError("minieval: an equality test depends on the unknown value")
         if isinstance(a, TypeRef) and isinstance(b, TypeRef):
             return a.name == b.name
